@@ -1,3 +1,48 @@
-From PV Require Import Expect.Model.
-Theorem placeholder : True. Proof. exact I. Qed.
-Print Assumptions placeholder.
+(** C03 No missed or late match: every chunking agrees with naive full re-search.
+    Property theorems only; the proofs are in Expect/Refine.v. *)
+From Coq Require Import ZArith NArith List Bool Arith.
+Import ListNotations.
+From PV Require Import Base.PySeq Base.Rx Expect.Model Expect.Spec Expect.Refine.
+
+(** For every regex engine, every reachable state (the search buffer is a suffix of the pending text -
+    however a previous call, with whatever window or patterns, left it), every pattern list, searcher
+    kind, window (None or >= 1), timeout-0 flag and every list of transport events: the incremental
+    Expecter and the naive procedure "after each read search all pending text (or its last W characters)"
+    report the same outcome with the same before/after, consume the same number of events (the match is
+    reported at the FIRST read after which the window contains an occurrence) and leave the same pending text. *)
+Theorem C03_expecter_refines_naive :
+  forall (rx : Type) (re_search : rx -> text -> nat -> option (nat * nat))
+         (c : cfg rx) (t0 : bool) (s : st) (evs : list ev),
+  wfW rx c -> Inv s ->
+  agree rx c (expect_loop rx re_search c t0 s evs) (ncall rx re_search c t0 (pend s) evs).
+Proof. exact expect_refines. Qed.
+Print Assumptions C03_expecter_refines_naive.
+
+(** ... also when W, the pattern list or the searcher change from call to call, and across assignments
+    to the buffer attribute: whole histories agree step by step. *)
+Theorem C03_histories_refine :
+  forall (rx : Type) (re_search : rx -> text -> nat -> option (nat * nat))
+         (ops : list (op rx)) (s : st) (evs : list ev),
+  Forall (wf_op rx) ops -> Inv s ->
+  Forall2 (fun o xy => agree_step rx o (fst xy) (snd xy)) ops
+    (combine (history rx re_search ops s evs) (nhistory rx re_search ops (pend s) evs)) /\
+  length (history rx re_search ops s evs) = length ops /\
+  length (nhistory rx re_search ops (pend s) evs) = length ops.
+Proof. exact history_refines. Qed.
+Print Assumptions C03_histories_refine.
+
+(** The incremental tail search of the string searcher finds exactly the occurrences of the full
+    search, including those that straddle the boundary between old and fresh data. *)
+Theorem C03_incremental_string_search :
+  forall (rx : Type) (re_search : rx -> text -> nat -> option (nat * nat)) (c : cfg rx) (x B d : text),
+  ckind c = KExact -> W c = None ->
+  (forall s0, In (PStr s0) (pats c) -> forall k, PySeqFacts.occb s0 (x ++ B) k = false) ->
+  (forall s0, In (PStr s0) (pats c) -> length s0 <= length B \/ x = []) ->
+  shift3 (length x) (search rx re_search c (B ++ d) (length d)) = nsearch rx re_search c (x ++ B ++ d).
+Proof. exact search_incremental. Qed.
+Print Assumptions C03_incremental_string_search.
+
+(** non-vacuity: a trimmed buffer left by a timed-out call with a shorter look-back is a reachable Inv state *)
+Example C03_inv_example : Inv {| pend := [97; 98; 99; 100]%N; buf := [99; 100]%N |} /\
+                          wfW rx {| ckind := KExact; pats := [PStr [98; 99]%N; PEof]; W := Some 3 |}.
+Proof. split; [now exists [97; 98]%N | cbn; auto]. Qed.
